@@ -709,7 +709,7 @@ func (w *World) filterPredicateOrder(P string, f *Facts, r *Roles) {
 					if callee == nil && !cc.Call.IsInvoke() {
 						callee = h.boundFunc(cc.Call.Value)
 					}
-					if callee == nil || fnPkgKey(callee) != "exec" || len(callee.Params) == 0 || len(cc.Call.Args) == 0 || cc.Call.Args[0] != ssa.Value(g.Params[0]) {
+					if callee == nil || fnPkgKey(callee) != "exec" || len(callee.Params) == 0 || len(cc.Call.Args) == 0 || cc.Call.Args[0] != ssa.Value(ctxParam(g)) {
 						return
 					}
 					// the call itself: conditional only on error tests and on the step function being there
@@ -1488,7 +1488,7 @@ func checkC18(w *World) {
 			}
 			// dynamic call of a Function value: first argument must be the handler's context
 			if len(c.Call.Args) >= 1 {
-				if mi, isMI := c.Call.Args[0].(*ssa.MakeInterface); isMI && mi.X == ssa.Value(h.Fn.Params[0]) {
+				if mi, isMI := c.Call.Args[0].(*ssa.MakeInterface); isMI && mi.X == ssa.Value(ctxParam(h.Fn)) {
 					ok = true
 				}
 			}
